@@ -9,6 +9,7 @@ package main
 // The OCaml driver (extracted Coq model) consumes op+o lines and prints its own r/s lines.
 
 import (
+	"os/exec"
 	"bufio"
 	"compress/gzip"
 	"crypto/sha256"
@@ -306,8 +307,11 @@ var uuidNameRe = regexp.MustCompile(`^(?i:[0-9a-f]{8}-[0-9a-f]{4}-[0-9a-f]{4}-[0
 // object files": entries of the collection directory whose name up to the first dot is a uuid
 // (any letter case) against the values of index.object-ids in schema.json (what a handle in
 // synchronous mode has in memory after any completed call)
-func (e *Exec) setsDiffer() int {
-	dir := e.colDir()
+func (e *Exec) setsDiffer() int { return dirSetsDiffer(e.colDir()) }
+
+// dirSetsDiffer: 1 when the uuids named by the entries of a collection directory differ from the uuids
+// of the id table of its schema.json, 0 when they are the same set, -1 when that cannot be told
+func dirSetsDiffer(dir string) int {
 	ents, err := os.ReadDir(dir)
 	if err != nil {
 		return -1
@@ -657,6 +661,15 @@ func (e *Exec) step(t []string) {
 		}()
 		err := db.InsertOrUpdate(r)
 		defer e.emit("r %s", cls(err))
+		if err != nil && f.U == 0 && e.failNext < 0 {
+			// a refused NEW object: Exist must not see it (C06, also while writes are asynchronous)
+			func() {
+				defer func() { recover() }()
+				if ok, xerr := db.Exist(r); xerr == nil {
+					defer e.emit("o existafter %s", b2s(ok))
+				}
+			}()
+		}
 	case "many", "bulk":
 		i := 1
 		csize := 0
@@ -876,6 +889,14 @@ func (e *Exec) step(t []string) {
 			e.emit("r %s 0", rd(cls(err)))
 		} else {
 			e.emit("r ok %d", sr.s.Len())
+		}
+	case "snapcheck":
+		// THE PROCESS DIES NOW: what a new process finds. The directory is copied and a child process
+		// (same binary, real file system and clock) opens the copy: either it is told about a corruption
+		// (first load or Control) or the directory and its index agree (C05, every configuration)
+		e.emit("r ok")
+		if v := e.snapcheck(); v != "" {
+			e.emit("o snap %s", v)
 		}
 	case "commit":
 		e.emit("r %s", cls(db.Commit(e.of())))
@@ -1508,3 +1529,83 @@ func dirHash(root string) string {
 }
 
 func atoi(s string) int { n, _ := strconv.Atoi(s); return n }
+
+
+// snapcheck copies the database directory and lets a child process judge the copy; "" when the
+// child could not run
+func (e *Exec) snapcheck() string {
+	cp, err := os.MkdirTemp("", "hzsnap")
+	if err != nil {
+		return ""
+	}
+	defer os.RemoveAll(cp)
+	err = filepath.Walk(e.root, func(path string, info os.FileInfo, err error) error {
+		if err != nil {
+			return nil
+		}
+		rel, _ := filepath.Rel(e.root, path)
+		dst := filepath.Join(cp, rel)
+		if info.IsDir() {
+			return os.MkdirAll(dst, 0700)
+		}
+		data, rerr := os.ReadFile(path)
+		if rerr != nil {
+			return nil
+		}
+		return os.WriteFile(dst, data, 0600)
+	})
+	if err != nil {
+		return ""
+	}
+	lower := "0"
+	if e.cfg.Lower {
+		lower = "1"
+	}
+	cmd := exec.Command(os.Args[0], "-snapchild", cp, "-snaplower", lower)
+	out, err := cmd.Output()
+	if err != nil {
+		return "childfailed"
+	}
+	return strings.TrimSpace(string(out))
+}
+
+// snapChild runs in the child process: a fresh handle on the copied directory
+func snapChild(root string, lower bool) {
+	db := sod.Open(root)
+	of := &shape.Rec{}
+	dir := filepath.Join(root, "shape.Rec")
+	if lower {
+		sod.LowercaseNames = true
+		dir = filepath.Join(root, "shape._rec")
+	}
+	if _, err := os.Stat(dir); err != nil {
+		fmt.Println("nodir")
+		return
+	}
+	verdict := func() (v string) {
+		defer func() {
+			if r := recover(); r != nil {
+				v = "panic"
+			}
+		}()
+		if _, err := db.Schema(of); err != nil {
+			return "told:" + cls(err)
+		}
+		if err := db.Control(); err != nil {
+			return "told:" + cls(err)
+		}
+		switch dirSetsDiffer(dir) {
+		case 0:
+			// every indexed object must also be readable
+			if objs, err := db.All(of); err != nil {
+				return "silent-unreadable:" + cls(err)
+			} else {
+				return fmt.Sprintf("agree:%d", len(objs))
+			}
+		case 1:
+			return "silent-disagree"
+		}
+		return "unknown"
+	}()
+	fmt.Println(verdict)
+}
